@@ -102,63 +102,142 @@ theorem lexBy_swo {α} {lt : α → α → Bool} (h : SWO lt) : SWO (lexBy lt) :
 
 theorem lexLt_swo : SWO lexLt := lexBy_swo natLt_swo
 
-theorem keysLt_eq_lexBy : ∀ (a b : List (List Nat)), a.length = b.length → keysLt a b = lexBy lexLt a b := by
-  intro a
-  induction a with
-  | nil => intro b hl; cases b <;> simp_all [keysLt, lexBy]
-  | cons x xs ih =>
-    intro b hl
-    cases b with
-    | nil => simp at hl
-    | cons y ys =>
-      simp only [keysLt, lexBy]
-      rw [ih ys (by simpa using hl)]
+/-- lexicographic comparison is asymmetric as soon as the element order is -/
+theorem lexBy_asymm_of {α} {lt : α → α → Bool} (hasym : ∀ a b, lt a b = true → lt b a = false) :
+    ∀ x y : List α, lexBy lt x y = true → lexBy lt y x = false := by
+  intro x
+  induction x with
+  | nil => intro y _; cases y <;> simp [lexBy]
+  | cons a as ih =>
+    intro y hxy
+    cases y with
+    | nil => simp [lexBy] at hxy
+    | cons b bs =>
+      simp only [lexBy] at hxy ⊢
+      cases hab : lt a b
+      · rw [hab] at hxy
+        cases hba : lt b a
+        · rw [hba] at hxy
+          simp only [Bool.false_eq_true, if_false] at hxy ⊢
+          exact ih bs hxy
+        · rw [hba] at hxy; simp at hxy
+      · have hba := hasym a b hab
+        simp [hba]
 
 theorem ltKeys_length (ps : List Param) (a b : Elem) : (ltKeys ps a).length = (ltKeys ps b).length := by
   simp [ltKeys]
 
-theorem elemLt_eq (ps : List Param) (a b : Elem) : elemLt ps a b = lexBy lexLt (ltKeys ps a) (ltKeys ps b) :=
-  keysLt_eq_lexBy _ _ (ltKeys_length ps a b)
+theorem allLt_irrefl : ∀ (a : List (List Nat)), a ≠ [] → allLt a a = false := by
+  intro a
+  induction a with
+  | nil => intro h; exact absurd rfl h
+  | cons x xs _ => intro _; simp [allLt, lexLt_swo.irrefl x]
 
-/-- the element-level `<` is a strict weak order for every parameter list -/
-theorem elemLt_swo (ps : List Param) : SWO (elemLt ps) := by
-  have h := (lexBy_swo lexLt_swo).comap (ltKeys ps)
-  constructor
-  · intro a b; rw [elemLt_eq, elemLt_eq]; exact h.asymm a b
-  · intro a b c; rw [elemLt_eq, elemLt_eq, elemLt_eq]; exact h.negtrans a b c
+theorem allLt_asymm : ∀ (a b : List (List Nat)), a ≠ [] → allLt a b = true → allLt b a = false := by
+  intro a b ha hab
+  cases a with
+  | nil => exact absurd rfl ha
+  | cons x xs =>
+    cases b with
+    | nil => simp [allLt] at hab
+    | cons y ys =>
+      simp only [allLt, Bool.and_eq_true] at hab
+      simp [allLt, lexLt_swo.asymm x y hab.1]
 
-theorem seqLt_swo (ps : List Param) : SWO (seqLt ps) := lexBy_swo (elemLt_swo ps)
+theorem allLt_trans : ∀ (a b c : List (List Nat)), allLt a b = true → allLt b c = true → allLt a c = true := by
+  intro a
+  induction a with
+  | nil => intro b c hab hbc; cases b <;> cases c <;> simp_all [allLt]
+  | cons x xs ih =>
+    intro b c hab hbc
+    cases b with
+    | nil => simp [allLt] at hab
+    | cons y ys =>
+      cases c with
+      | nil => simp [allLt] at hbc
+      | cons z zs =>
+        simp only [allLt, Bool.and_eq_true] at hab hbc ⊢
+        exact ⟨lexLt_swo.trans hab.1 hbc.1, ih ys zs hab.2 hbc.2⟩
 
-/-- the vector-level `<` is a strict weak order on both code paths -/
-theorem vecLt_swo (ps : List Param) : SWO (vecLt ps) := by
-  unfold vecLt
-  split
-  · -- whole-buffer path: byte-lexicographic on the used data area, with the empty-vector guards
+theorem allLt_length : ∀ (a b : List (List Nat)), allLt a b = true → a.length = b.length := by
+  intro a
+  induction a with
+  | nil => intro b h; cases b <;> simp_all [allLt]
+  | cons x xs ih =>
+    intro b h
+    cases b with
+    | nil => simp [allLt] at h
+    | cons y ys => simp only [allLt, Bool.and_eq_true] at h; simp [ih ys h.2]
+
+/-- the element-level `<` (a conjunction over the parameters/runs) is a strict *partial* order -/
+theorem elemLt_irrefl (ps : List Param) (a : Elem) : elemLt ps a a = false := by
+  unfold elemLt keysLt
+  cases h : ltKeys ps a with
+  | nil => simp
+  | cons x xs => simp [allLt_irrefl (x :: xs) (by simp)]
+
+theorem elemLt_asymm (ps : List Param) (a b : Elem) (h : elemLt ps a b = true) : elemLt ps b a = false := by
+  unfold elemLt keysLt at h ⊢
+  simp only [Bool.and_eq_true, Bool.not_eq_true', List.isEmpty_eq_false_iff] at h
+  rw [allLt_asymm _ _ h.1 h.2]; simp
+
+theorem elemLt_trans (ps : List Param) (a b c : Elem) (h1 : elemLt ps a b = true) (h2 : elemLt ps b c = true) :
+    elemLt ps a c = true := by
+  unfold elemLt keysLt at h1 h2 ⊢
+  simp only [Bool.and_eq_true, Bool.not_eq_true', List.isEmpty_eq_false_iff] at h1 h2 ⊢
+  exact ⟨h1.1, allLt_trans _ _ _ h1.2 h2.2⟩
+
+/-- vector `<` is irreflexive and asymmetric on both code paths -/
+theorem vecLt_asymm (ps : List Param) (a b : List Elem) (h : vecLt ps a b = true) : vecLt ps b a = false := by
+  unfold vecLt at h ⊢
+  split at h
+  · rename_i hc
+    simp only [hc, if_true]
     have hb := lexLt_swo.comap (vecBytes ps)
-    constructor
-    · intro a b hab
-      cases a with
-      | nil => cases b <;> simp_all
-      | cons x xs =>
+    cases a with
+    | nil => cases b <;> simp_all
+    | cons x xs =>
+      cases b with
+      | nil => simp at h
+      | cons y ys => simp only [List.isEmpty_cons, Bool.false_eq_true, if_false] at h ⊢; exact hb.asymm _ _ h
+  · rename_i hc
+    simp only [hc, if_false]
+    exact lexBy_asymm_of (elemLt_asymm ps) a b h
+
+theorem vecLt_irrefl (ps : List Param) (a : List Elem) : vecLt ps a a = false := by
+  cases h : vecLt ps a a
+  · rfl
+  · have := vecLt_asymm ps a a h; rw [h] at this; exact this
+
+/-- on the whole-buffer path vector `<` is a strict weak order -/
+theorem vecLt_swo_fastpath (ps : List Param) (hc : (ps.all (·.ty.lexMemcmp) && isFixedOrPlain ps && storageAl ps == 1) = true) :
+    SWO (vecLt ps) := by
+  unfold vecLt
+  simp only [hc, if_true]
+  have hb := lexLt_swo.comap (vecBytes ps)
+  constructor
+  · intro a b hab
+    cases a with
+    | nil => cases b <;> simp_all
+    | cons x xs =>
+      cases b with
+      | nil => simp at hab
+      | cons y ys => simp only [List.isEmpty_cons, Bool.false_eq_true, if_false] at hab ⊢; exact hb.asymm _ _ hab
+  · intro a b c hab hbc
+    cases a with
+    | nil =>
+      cases b with
+      | nil => exact hbc
+      | cons y ys => simp at hab
+    | cons x xs =>
+      cases c with
+      | nil => simp
+      | cons z zs =>
         cases b with
-        | nil => simp at hab
-        | cons y ys => simp only [List.isEmpty_cons, Bool.false_eq_true, if_false] at hab ⊢; exact hb.asymm _ _ hab
-    · intro a b c hab hbc
-      cases a with
-      | nil =>
-        cases b with
-        | nil => exact hbc
-        | cons y ys => simp at hab
-      | cons x xs =>
-        cases c with
-        | nil => simp
-        | cons z zs =>
-          cases b with
-          | nil => simp at hbc
-          | cons y ys =>
-            simp only [List.isEmpty_cons, Bool.false_eq_true, if_false] at hab hbc ⊢
-            exact hb.negtrans _ _ _ hab hbc
-  · exact seqLt_swo ps
+        | nil => simp at hbc
+        | cons y ys =>
+          simp only [List.isEmpty_cons, Bool.false_eq_true, if_false] at hab hbc ⊢
+          exact hb.negtrans _ _ _ hab hbc
 
 end Cntgs
 
